@@ -73,6 +73,55 @@ class Check(core.CheckBase):
                 index += 1
                 if self.mine(index):
                     yield {'kind': 'reference', 'cls': family, 'block': block}
+        index += 1
+        if self.mine(index):
+            yield {'kind': 'order-independence'}
+
+    ORDERS = {'quick': ['sorted', 'reversed', 'interleaved', 'rotate-3'],
+              'thorough': ['sorted', 'reversed', 'interleaved'] + ['rotate-%d' % n for n in (1, 2, 3, 5, 8, 13, 21)] +
+                          ['shuffle-%d' % n for n in range(6)]}
+
+    def order_entries(self):
+        """The whole seed corpus plus reference encodings of every protocol family: [class name, hex]."""
+        import importlib  # pylint: disable=import-outside-toplevel
+        entries = [[name, data.hex()] for name, data in pipeline.load_corpus()]
+        for family in ('tls', 'ssh', 'dns', 'opp'):
+            rng = random.Random('C03/order/%s' % family)
+            for pair in importlib.import_module('vmon.gen.' + family).generate(rng, 120 if self.tier == 'quick' else 600):
+                if len(pair.wire) <= 20000:
+                    entries.append([inventory.class_name(pair.cls), pair.wire.hex()])
+        return entries
+
+    def judge_order_independence(self, case):
+        """n and the parsed object are a function of the bytes alone: the same entries parsed in fresh interpreters in
+        different orders give the same outcome entry by entry (vmon/orderfree.py)."""
+        from vmon import orderfree  # pylint: disable=import-outside-toplevel
+        entries = self.order_entries()
+        labels = self.ORDERS[self.tier]
+        results, problems = orderfree.run_children(entries, labels)
+        self.inconclusive.extend(problems)
+        found = {}
+        if len(results) < 2:
+            return []
+        base_label = labels[0] if labels[0] in results else sorted(results)[0]
+        for index, (name, hex_data) in enumerate(entries):
+            self.stats['order_entries_compared'] += 1
+            base = results[base_label].get(index)
+            for label in results:
+                other = results[label].get(index)
+                if other != base:
+                    short = name.split(':')[1]
+                    key = 'order-dependent|%s' % short
+                    if key not in found:
+                        found[key] = self.violation(
+                            key, '%s(%s..): parsed in a fresh interpreter the outcome is %s in order %r but %s in order %r - what '
+                            'was parsed before changes the result' % (short, hex_data[:40], base.split(':')[0:2], base_label,
+                                                                      other.split(':')[0:2], label), case)
+                    break
+        self.stats['order_children'] += len(results)
+        self.observe(('order-independence', tuple(labels)), True, {'kind': 'order-independence', 'entries': len(entries),
+                                                                   'orders': sorted(results)})
+        return list(found.values())
 
     def judge_reference(self, case):
         """Encodings written by the independent reference encoders for generator-built values (header forms and field
@@ -94,6 +143,8 @@ class Check(core.CheckBase):
             return self.judge_input(case['cls'], bytes.fromhex(case['hex']), ('replay', ))
         if case['kind'] == 'reference':
             return self.judge_reference(case)
+        if case['kind'] == 'order-independence':
+            return self.judge_order_independence(case)
         name = case['cls']
         rng = random.Random('C03/%s/%s/%s/%s' % (self.seed, case['kind'], name, case['seed_index']))
         data = self.corpus[name][case['seed_index']]
@@ -265,7 +316,8 @@ class Check(core.CheckBase):
 
     def floors(self):
         return {'accepted': 2000, 'rejected': 2000, 'length_postconditions': 2000, 'frames_judged': 300,
-                'self_delimiting_evaluations': 1500, 'classes': 300, 'reference_encodings': 400}
+                'self_delimiting_evaluations': 1500, 'classes': 300, 'reference_encodings': 400, 'order_children': 3,
+                'order_entries_compared': 1000}
 
     def finish(self):
         return {'classes': sorted(self.notes.get('classes', set())),
